@@ -1501,7 +1501,12 @@ class AsType(Elemwise):
             dtypes = self.operand("dtypes")
             columns = determine_column_projection(self, parent, dependents)
             if isinstance(dtypes, dict):
-                dtypes = {key: val for key, val in dtypes.items() if key in columns}
+                # ``columns`` may be a single label: no substring test
+                dtypes = {
+                    key: val
+                    for key, val in dtypes.items()
+                    if key in _convert_to_list(columns)
+                }
                 if not dtypes:
                     return type(parent)(self.frame, *parent.operands[1:])
             if isinstance(columns, list):
